@@ -113,6 +113,13 @@ pub fn grid(fam: Fam, ft: Ft) -> Vec<Cell> {
                     v.push(c(fam, ft, &[b, a]));
                 }
             }
+            // both parameters just above the BB switch at *different* distances: alpha - 2 and 2ab - alpha are small
+            // differences there (finding C01-Beta-BB-cancellation; ulp-symmetric pairs happen to be exact)
+            let e = ft.eps();
+            for &(da, db) in &[(19.0 * e, 2.0 * e), (3.0 * e, 100.0 * e), (1e-6, 3e-6), (1e-5, 1e-6), (1e-5, 3e-5), (1e-4, 1e-6), (1e-3, 1e-6)] {
+                v.push(c(fam, ft, &[1.0 + da, 1.0 + db]));
+                v.push(c(fam, ft, &[1.0 + db, 1.0 + da]));
+            }
             for &(a, b) in &[
                 (slo, slo), (shi, shi), (slo, shi), (shi, slo), (2.0, 3.0), (3.0, 2.0), (2.0, 2.0), (0.5, 0.5), (0.5, 0.7), (0.7, 0.5),
                 (30.0, 5.0), (5.0, 30.0), (1.5, 100.0), (0.4, 10.0), (10.0, 0.4),
